@@ -1,4 +1,5 @@
 import TinyVerif.Model.Spawn
+import TinyVerif.Model.SpawnEnv
 import TinyVerif.Drv.Common
 open TinyVerif TinyVerif.Spawn
 
@@ -103,6 +104,19 @@ def showPipes : Option (List Bool) → String
 def showSpawned (o : Spawned) : String :=
   s!"{showParent o.run.parent} child={showChild o.run.child} returners={(returners o.run).length} {showImage o.image} pipes={showPipes o.pipes} ncl={o.closuresCalled}"
 
+/-! envseq: `envseq start=<b> penv=<n> <tok>* S (<tok>* S)*` — builder calls on ONE Command, `S` = spawn (no fault);
+    tokens: e<i> / E<i.j..> (E = empty iterator) / a<i> / A<i.j..> / cwd / si= so= se= ; the caller's environment is
+    the strings 1000..1000+n-1.  Answer: the environment of every image, ` / `-separated (`.` = empty). -/
+
+def splitSpawns (ws : List String) : Option (List (List String)) :=
+  let r := ws.foldl (fun (acc : List (List String) × List String) w =>
+    if w == "S" then (acc.1 ++ [acc.2], []) else (acc.1, acc.2 ++ [w])) ([], [])
+  if r.2.isEmpty && !r.1.isEmpty then some r.1 else none
+
+def showEnvRound : Option (List Nat) → String
+  | none => "noimage"
+  | some l => showList l
+
 def step (_ : Unit) (line : String) : Unit × String :=
   match Drv.words line with
   | ["spawn", fx, s, cwd, uid, gid, pg, cl, before, eintr, readerr, waiterr, cf] =>
@@ -137,6 +151,25 @@ def step (_ : Unit) (line : String) : Unit × String :=
       match runStages fixed start (newB start 0) stages with
       | none => ((), "panic")
       | some outs => ((), " / ".intercalate (outs.map showSpawned))
+    | _, _, _ => ((), "bad-op")
+  | ["freeenv", st, pe, md] =>
+    -- the no-alloc front end `process::spawn(.., env: &Environment, ..)`: the environment is passed directly
+    match fld "start=" st >>= bit, fld "penv=" pe >>= String.toNat?, fld "mode=" md with
+    | some start, some n, some md =>
+      let penv := (List.range n).map (· + 1000)
+      if md == "none" then ((), showList (childEnv penv .none))
+      else if md == "inherit" && start then ((), showList (childEnv penv .inherit))
+      else ((), "bad-op")
+    | _, _, _ => ((), "bad-op")
+  | "envseq" :: st :: pe :: rest =>
+    match fld "start=" st >>= bit, fld "penv=" pe >>= String.toNat?, splitSpawns rest with
+    | some start, some n, some segs =>
+      match segs.mapM (fun seg => seg.mapM parseBOp) with
+      | some opss =>
+        match envRounds start ((List.range n).map (· + 1000)) (newB start 0) opss with
+        | none => ((), "panic")
+        | some outs => ((), " / ".intercalate (outs.map showEnvRound))
+      | none => ((), "bad-op")
     | _, _, _ => ((), "bad-op")
   | _ => ((), "bad-op")
 
